@@ -105,6 +105,17 @@ def sum_boundary_pairs(rng, n):
         if finite(a) and finite(b): out.append((a, b))
     return out
 
+def pool_complement_pairs(pool, finite_only=True):
+    """(p, t - p) and (t - p, p) for every pool value p and every overflow target t: one operand is a boundary value
+    of some width, the exact sum is a limit"""
+    out = []
+    targets = [F, F + 1, F + 2, 2**63, -F, -F - 1, -F - 2, -2**63, -2**63 - 1, 0]
+    for p in pool:
+        for t in targets:
+            q = t - p
+            if (not finite_only) or (finite(p) and finite(q)): out.append((p, q)); out.append((q, p))
+    return out
+
 def diff_boundary_pairs(rng, n):
     return [(a, -b) for a, b in sum_boundary_pairs(rng, n) if finite(-b)]
 
